@@ -556,7 +556,10 @@ func c07Conn(r *fw.R, beh string, role Role, p wire.Params, seed uint64, success
 	case "wsjson-invalid":
 		// documents that do not decode: wsjson.Read fails (that is its job) and the connection is closed; what
 		// the failed call did with its pooled buffer shows on the connections that decode afterwards
-		doc := []string{`{"tag":`, `{"tag":5}`, `[1,2`, `"` + strings.Repeat("x", 3000), `{"tag":"a"}{"tag":"b"}`, ``}[rng.Intn(6)]
+		// (half of them are a complete value followed by a second, tagged one: whoever keeps what follows the first
+		// value around hands it to somebody else)
+		stale := fmt.Sprintf(`{"tag":"a"}{"tag":"conn-%d-stale-second-document"}`, k)
+		doc := []string{`{"tag":`, `{"tag":5}`, `[1,2`, `"` + strings.Repeat("x", 3000), stale, ``, stale, stale + " ", stale}[rng.Intn(9)]
 		peer.Send(wire.Data(wire.OpText, true, []byte(doc)))
 		var v struct{ Tag string }
 		if err := wsjson.Read(ctx, c, &v); err == nil {
